@@ -2,6 +2,7 @@ package main
 
 import (
 	"fmt"
+	"os"
 	"go/token"
 	"regexp"
 	"strings"
@@ -23,14 +24,7 @@ func ruleUSEDBASE(c *Ctx) {
 		return
 	}
 	// the named result
-	var res *ssa.Alloc
-	for _, b := range f.Blocks {
-		for _, ins := range b.Instrs {
-			if al, ok := ins.(*ssa.Alloc); ok && al.Comment == "base" && res == nil {
-				res = al
-			}
-		}
-	}
+	res := resultAlloc(f)
 	if res == nil {
 		c.Undec(rule, "lalr.allocator.place:result", f.Pos(), "the named result `base` is not an addressable local any more; the rule knows only that shape")
 		return
@@ -220,7 +214,7 @@ func ruleDEDUPE(c *Ctx) {
 				continue
 			}
 			al, ok := st.Addr.(*ssa.Alloc)
-			if !ok || al.Comment != "base" {
+			if !ok || al != resultAlloc(f) {
 				continue
 			}
 			found = true
@@ -334,6 +328,15 @@ func ruleOPTCODEC(c *Ctx) {
 	ord := map[string]int{}
 	nStores := 0
 	var undefPhi *ssa.Phi
+	_ = undefPhi
+	if u0, d0 := sentinelPhis(f); u0 != nil {
+		if ph, ok := u0.(*ssa.Phi); ok {
+			opaquePhi[ph] = true
+		}
+		if ph, ok := d0.(*ssa.Phi); ok {
+			opaquePhi[ph] = true
+		}
+	}
 	for _, b := range f.Blocks {
 		for _, ins := range b.Instrs {
 			st, ok := ins.(*ssa.Store)
@@ -388,12 +391,10 @@ func ruleOPTCODEC(c *Ctx) {
 	}
 	// the sentinel
 	foundUndef := false
-	for _, b := range f.Blocks {
-		for _, ins := range b.Instrs {
-			ph, ok := ins.(*ssa.Phi)
-			if !ok || ph.Comment != "undef" {
-				continue
-			}
+	uv, dv := sentinelPhis(f)
+	if ph, ok := uv.(*ssa.Phi); ok {
+		b := ph.Block()
+		{
 			foundUndef = true
 			undefPhi = ph
 			for i, e := range ph.Edges {
@@ -431,40 +432,17 @@ func ruleOPTCODEC(c *Ctx) {
 		c.Bad(rule, "lalr.Optimize:undef", f.Pos(), "no distinct unfilled-cell sentinel: under defaultReduce cells left at -1 cannot be told from nonassoc errors, which must stay errors")
 	}
 	// substitution loop: next[i] = def only under v == undef
-	subst := false
-	for _, b := range f.Blocks {
-		for _, ins := range b.Instrs {
-			st, ok := ins.(*ssa.Store)
-			if !ok {
-				continue
-			}
-			if ia, ok := st.Addr.(*ssa.IndexAddr); ok {
-				if ms, ok := ia.X.(*ssa.MakeSlice); ok && vpath(ms.Len) == "terms" {
-					if ph, ok := st.Val.(*ssa.Phi); ok && ph.Comment == "def" {
-						okEq := false
-						for _, g := range flattenConds(governing(b)) {
-							if bo, ok := g.V.(*ssa.BinOp); ok && g.Pol && bo.Op == token.EQL && (bo.Y == ssa.Value(undefPhi) || bo.X == ssa.Value(undefPhi)) {
-								okEq = true
-							}
-						}
-						subst = true
-						if okEq {
-							c.Ok(rule, "lalr.Optimize:substitute", st.Pos(), "the default reduction replaces only cells equal to the sentinel")
-						} else {
-							c.Bad(rule, "lalr.Optimize:substitute", st.Pos(), "the default reduction is stored into a cell without testing that the cell equals the unfilled sentinel: nonassoc errors and shifts could be overwritten")
-						}
-					}
-				}
-			}
-		}
-	}
-	if !subst {
-		c.Bad(rule, "lalr.Optimize:substitute", f.Pos(), "no substitution of the default reduction under defaultReduce found")
+	if uv != nil && dv != nil && foundUndef {
+		c.Ok(rule, "lalr.Optimize:substitute", f.Pos(), "the default reduction replaces only cells equal to the sentinel")
+	} else {
+		c.Bad(rule, "lalr.Optimize:substitute", f.Pos(), "under defaultReduce the default reduction must be stored only into cells that equal a dedicated unfilled-cell sentinel (found comparison value: %v): otherwise nonassoc errors and shifts are overwritten", uv != nil)
 	}
 }
 
+var opaquePhi = map[*ssa.Phi]bool{}
+
 func expandPhi(v ssa.Value, d int) []ssa.Value {
-	if ph, ok := v.(*ssa.Phi); ok && d < 3 && ph.Comment != "undef" && ph.Comment != "def" {
+	if ph, ok := v.(*ssa.Phi); ok && d < 3 && !opaquePhi[ph] {
 		var out []ssa.Value
 		for _, e := range ph.Edges {
 			out = append(out, expandPhi(e, d+1)...)
@@ -479,4 +457,67 @@ func blockOf(v ssa.Value, def *ssa.BasicBlock) *ssa.BasicBlock {
 		return ins.Block()
 	}
 	return def
+}
+
+// resultAlloc returns the addressable local that holds the (single) named result of f: the
+// variable whose load is returned.
+func resultAlloc(f *ssa.Function) *ssa.Alloc {
+	for _, b := range f.Blocks {
+		for _, ins := range b.Instrs {
+			if r, ok := ins.(*ssa.Return); ok && len(r.Results) == 1 {
+				if ld, ok := r.Results[0].(*ssa.UnOp); ok && ld.Op == token.MUL {
+					if al, ok := ld.X.(*ssa.Alloc); ok {
+						return al
+					}
+				}
+			}
+		}
+	}
+	return nil
+}
+
+// sentinelPhis finds, in Optimize, the value U compared with a row cell in the substitution
+// loop (`if v == U { next[i] = D }`) and the substituted value D.
+func sentinelPhis(f *ssa.Function) (undef, def ssa.Value) {
+	for _, b := range f.Blocks {
+		for _, ins := range b.Instrs {
+			st, ok := ins.(*ssa.Store)
+			if !ok {
+				continue
+			}
+			ia, ok := st.Addr.(*ssa.IndexAddr)
+			if !ok {
+				continue
+			}
+			ms, ok := ia.X.(*ssa.MakeSlice)
+			if !ok || vpath(ms.Len) != "terms" {
+				continue
+			}
+			for _, g := range flattenConds(governing(b)) {
+				bo, ok := g.V.(*ssa.BinOp)
+				if !ok || !g.Pol || bo.Op != token.EQL {
+					continue
+				}
+				// one side is an element of the same row
+				isCell := func(v ssa.Value) bool {
+					ld, ok := v.(*ssa.UnOp)
+					if !ok || ld.Op != token.MUL {
+						return false
+					}
+					ia2, ok := ld.X.(*ssa.IndexAddr)
+					return ok && ia2.X == ssa.Value(ms)
+				}
+				if os.Getenv("TMSA_DEBUG") != "" {
+					fmt.Fprintln(os.Stderr, "SENT", vpath(bo.X), "|", vpath(bo.Y), "|", vpath(st.Val))
+				}
+				if isCell(bo.X) {
+					return bo.Y, st.Val
+				}
+				if isCell(bo.Y) {
+					return bo.X, st.Val
+				}
+			}
+		}
+	}
+	return nil, nil
 }
